@@ -2,8 +2,12 @@ from . import M, Q
 
 # ---- OWN
 M("own-pinned-grad-inplace", "main.py",
+  "        grad = np.copy(checkpoint.jac)\n", "        grad = checkpoint.jac\n        grad *= sf.scaling_factor\n",
+  ["OWN"], canary=True, note="pinned defect 9: caller's checkpoint.jac scaled in place (since fix 21 the restart works on a private copy, "
+                              "so the pinned form needs the reference back)")
+Q("own-grad-inplace-on-private-copy", "main.py",
   "    grad = grad * sf.scaling_factor\n", "    grad *= sf.scaling_factor\n",
-  ["OWN"], canary=True, note="pinned defect 9: caller's checkpoint.jac scaled in place")
+  ["OWN"], note="since fix 21 (d36457b) grad is a private array on both branches: not an ownership violation any more")
 M("own-x0-view-then-inplace", "main.py",
   "    x = clip2bounds(x0, lb, ub)\n", "    x = np.asarray(x0)\n    x += 0.0\n", ["OWN"])
 M("own-clip-out-x0", "main.py",
